@@ -219,7 +219,8 @@ def mkEnv (p : Prog) (d : Dyn) (cacheOff logOff : Bool) (subst : Option (Nat × 
     | some (_, j) =>
       let table := (pairList j "table").filterMap fun (a, b) => match b.getNat? with
         | .ok i => some (vOfJson a, i) | _ => Option.none
-      match table.find? (fun q => pyEq q.1 v) with
+      -- the continuation is user code with a type-strict table (`1` is not `True`)
+      match table.find? (fun q => q.1 == v) with
       | some (_, i) => .ok (buildExpr p i)
       | Option.none => match optNatOf j "dflt" with
         | some i => .ok (buildExpr p i)
